@@ -10,7 +10,8 @@ import z3
 from vt.pyvc.termvc import Arr, lift, uf
 
 R = z3.RealSort()
-TOQITO_RET = {"is_positive_semidefinite": z3.BoolSort(), "trace_norm": R, "fidelity": R, "partial_transpose": Arr, "to_density_matrix": Arr, "is_ppt": z3.BoolSort(), "hilbert_schmidt_inner_product": R, "partial_trace": Arr, "purity": R}
+B = z3.BoolSort()
+TOQITO_RET = {"is_positive_semidefinite": B, "is_hermitian": B, "is_identity": B, "is_herm_preserving": B, "is_completely_positive": B, "is_trace_preserving": B, "kraus_to_choi": Arr, "trace_norm": R, "fidelity": R, "partial_transpose": Arr, "to_density_matrix": Arr, "is_ppt": z3.BoolSort(), "hilbert_schmidt_inner_product": R, "partial_trace": Arr, "purity": R}
 
 
 def pred(text, env):
@@ -39,7 +40,7 @@ class TermContract:
         pc = [pred(t, env) if not t.startswith("not ") else z3.Not(pred(t[4:], env)) for t in self.requires]
         return env, pc
 
-    toqito_names = set(["is_positive_semidefinite", "is_ppt"])
+    toqito_names = set(["is_positive_semidefinite", "is_ppt", "is_hermitian", "is_identity", "is_herm_preserving", "is_completely_positive", "is_trace_preserving"])
 
     _index = None
 
@@ -176,5 +177,19 @@ CONTRACTS = {
     "l1_norm_coherence": ("toqito/state_props/l1_norm_coherence.py", [("rho", "arr")], [],
                           lambda e: uf("np.sum", R, uf("np.sum", R, uf("np.abs", Arr, tq("to_density_matrix", Arr, input_array=e["rho"])))) - tr(tq("to_density_matrix", Arr, input_array=e["rho"])),
                           "l1_norm_coherence == sum of |entries| of the density matrix minus its trace (= sum of off-diagonal moduli for a density matrix)"),
+    # channel predicates, Choi-matrix branch (requires: phi is not a list): tolerances must reach the same-named parameters of the callees
+    "is_positive": ("toqito/channel_props/is_positive.py", [("phi", "arr"), ("rtol", "real"), ("atol", "real")], ["not isinstance(phi, list)"],
+                    lambda e: tq("is_positive_semidefinite", B, mat=e["phi"], rtol=e["rtol"], atol=e["atol"]), "is_positive(J, rtol, atol) == is_positive_semidefinite(J, rtol=rtol, atol=atol)"),
+    "is_herm_preserving": ("toqito/channel_props/is_herm_preserving.py", [("phi", "arr"), ("rtol", "real"), ("atol", "real")], ["not isinstance(phi, list)", "not phi.shape[0] != phi.shape[1]"],
+                           lambda e: tq("is_hermitian", B, mat=e["phi"], rtol=e["rtol"], atol=e["atol"]), "is_herm_preserving(J, rtol, atol) == is_hermitian(J, rtol=rtol, atol=atol) for a square Choi matrix"),
+    "is_completely_positive": ("toqito/channel_props/is_completely_positive.py", [("phi", "arr"), ("rtol", "real"), ("atol", "real")], ["not isinstance(phi, list)"],
+                               lambda e: z3.And(tq("is_herm_preserving", B, phi=e["phi"], rtol=e["rtol"], atol=e["atol"]), tq("is_positive_semidefinite", B, mat=e["phi"], rtol=e["rtol"], atol=e["atol"])),
+                               "is_completely_positive(J) == Hermiticity-preserving and J positive semidefinite, tolerances passed on by name"),
+    "is_trace_preserving": ("toqito/channel_props/is_trace_preserving.py", [("phi", "arr"), ("rtol", "real"), ("atol", "real"), ("sys", "real"), ("dim", "arr")], ["not isinstance(phi, list)", "not dim is None"],
+                            lambda e: tq("is_identity", B, mat=uf("np.array", Arr, tq("partial_trace", Arr, input_mat=e["phi"], sys=[e["sys"] - 1], dim=e["dim"])), rtol=e["rtol"], atol=e["atol"]),
+                            "is_trace_preserving(J, rtol, atol, sys, dim) == is_identity(partial_trace(J, [sys - 1], dim), rtol=rtol, atol=atol)"),
+    "is_quantum_channel": ("toqito/channel_props/is_quantum_channel.py", [("phi", "arr"), ("rtol", "real"), ("atol", "real")], ["not isinstance(phi, list)"],
+                           lambda e: z3.And(tq("is_completely_positive", B, phi=e["phi"], rtol=e["rtol"], atol=e["atol"]), tq("is_trace_preserving", B, phi=e["phi"], rtol=e["rtol"], atol=e["atol"])),
+                           "is_quantum_channel(J) == completely positive and trace preserving, tolerances passed on by name"),
     "purity": ("toqito/state_props/purity.py", [("rho", "arr")], ["is_density(rho)"], lambda e: uf("np.real", R, tr(uf("np.linalg.matrix_power[2]", Arr, e["rho"]))), "purity == Re Tr(rho^2)"),
 }
